@@ -527,8 +527,63 @@ class ClientFamily(Family):
         return len(ops) >= 3
 
 
+class AckFamily(Family):
+    name = "ack"
+    timeout_s = 600
+    anchored = ["rtmp/src/sessions/server/mod.rs", "rtmp/src/sessions/client/mod.rs"]
+    rule = ("seed-independent: both session kinds × windows W = 1..8 × ALL call-size lists of length ≤ 4 over {0,1,2,3,W-1,W,W+1} "
+            "(!ack.run: real session, padding = valid chunk bytes, acknowledgements compared with the counter: emitted iff reached, "
+            "value, conservation, outstanding < W); sampled large windows incl. 2^32-1 and re-announcements; plus srv.in / cli.in "
+            "sequences with a window (model vs real session, acknowledgement packets byte-exact under hook H2); non-trivial = list has "
+            "≥ 2 calls; distinct = distinct op text")
+
+    def gen(self, rng, tier, pid, stats):
+        import itertools
+        for kind in ("s", "c"):
+            for w in range(1, 9):
+                vals = sorted({0, 1, 2, 3, max(w - 1, 0), w, w + 1})
+                for L in range(1, 5):
+                    batch = []
+                    for seq in itertools.product(vals, repeat=L):
+                        batch.append(f"!ack.run {kind} {w} {','.join(map(str, seq))} _")
+                        bump(stats, "exhaustive_small_scope_lists")
+                    for i in range(0, len(batch), 200):
+                        yield batch[i:i + 200]
+        n = 150 if tier == "quick" else 1500
+        for _ in range(n):
+            kind = rng.choice("sc")
+            w = rng.choice([1, 2, 7, 100, 1000, 4096, 65536, 2500000, (1 << 31), M32 - 1, rng.range(1, 5000)])
+            sizes = [rng.choice([0, 1, w % 7000, (w - 1) % 7000, (w + 1) % 7000, rng.range(0, 3000), rng.range(0, 50)]) for _ in range(rng.range(1, 12))]
+            bump(stats, "sampled_window_runs")
+            ops = [f"!ack.run {kind} {w} {','.join(map(str, sizes))} _"]
+            # the same kind of history through the model: window announcement, then padding in calls
+            st = {"now": 0}
+            ps = GS.PeerStream(rng, stats)
+            w2 = rng.choice([1, 3, 10, 50, 100, 1000])
+            if kind == "s":
+                ops.append("srv.new 0 4096 1000000 2500000 0 464d53")
+                pre = "srv.in"
+            else:
+                ops.append("cli.new 4096 1000000 2000 57494e _")
+                pre = "cli.in"
+            ops.append(f"{pre} {GS.rand_now(rng, st)} all {hexb(ps.msg(5, 0, w2.to_bytes(4, 'big')))}")
+            pad = b"".join(ps.msg(22, 9, bytes([7]) * rng.choice([0, 5, 50])) for _ in range(12))
+            sz = ",".join(str(rng.choice([0, 1, 2, w2 - 1 if w2 > 1 else 1, w2, w2 + 1, rng.range(1, 40)])) for _ in range(4))
+            ops.append(f"{pre} {GS.rand_now(rng, st)} {sz} {hexb(pad)}")
+            if rng.chance(1, 2):
+                w3 = rng.choice([1, 5, 20, 500])
+                ops.append(f"{pre} {GS.rand_now(rng, st)} all {hexb(ps.msg(5, 0, w3.to_bytes(4, 'big')))}")
+                pad = b"".join(ps.msg(22, 9, bytes([8]) * rng.choice([0, 5, 50])) for _ in range(8))
+                ops.append(f"{pre} {GS.rand_now(rng, st)} {rng.choice(['1', '3', '7,2', 'all'])} {hexb(pad)}")
+                bump(stats, "window_reannounced")
+            yield ops
+
+    def nontrivial(self, ops):
+        return True
+
+
 FAMILIES = {f.name: f for f in [TimeFamily(), AmfFamily(), AmfAdvFamily(), ChunkFamily(), ForeignFamily(), MsgFamily(), HsFamily(),
-                                 ServerFamily(), ClientFamily()]}
+                                 ServerFamily(), ClientFamily(), AckFamily()]}
 
 
 # ------------------------------------------------------------------------------- known findings
